@@ -37,3 +37,18 @@ check("C08", "exploration",
       "range is handed back for N days/nights). Held except the two listed beam-truncation families.",
       _D + "; configuration E only labels beam truncation", 
       "API call/return monitor + calendar model, plus a run-time contract wrapped around the duration/interval rules", "DESIGN.md 3/C08")
+
+check("C11", "exploration",
+      "Function level exhaustive: all 288 767 assigned code points as a single separator, with idempotence, position and "
+      "run collapsing; API level: every bundled-corpus expression and thousands of grammar expressions under separator "
+      "substitution, bracket wrapping, dash variants and case changes give the resolution of the plain text.",
+      _D + "; Unicode categories from Python's unicodedata", 
+      "wrapper on the real normaliser over every code point (exhaustive) + paired executions at the API (metamorphic)", "DESIGN.md 3/C11")
+
+check("C16", "exploration",
+      "Fitted model equals a textbook Laplace-smoothed multinomial naive Bayes over 1-3-grams to 1e-9 on thousands of seeded "
+      "random corpora x 12 queries; every posterior computed during real parses (shipped model and models trained in the "
+      "case) is re-derived from the fitted parameters by a contract; score / score_final re-derived as log-odds + length "
+      "term; save -> load gives identical floats; thorough also retrains on the bundled corpus samples.",
+      "reference model vf/spec/nb_ref.py; single-class training sets are outside the domain",
+      "icontract post-condition on the real predict_log_proba + independent reference model on random corpora", "DESIGN.md 3/C16")
